@@ -10,7 +10,7 @@ STEP_BUDGET = 1200
 MAX_SIZE = 20
 RULE = ('odd runs sweep a systematic enumeration: every node shape ([negated] operator over literals and double negations, 94 shapes) in every '
         'small literal context (as premise with 0-1 literal premises and a literal conclusion; as conclusion with 0-2 literal '
-        'premises; 31 contexts); the quick tier sweeps all of it in one logic per distinct set of truth-functional rule implementations '
+        'premises; 31 contexts), plus a scale sweep (n = 1..20 copies of one letter in a disjunction / conjunction against n-1, n, n+1 distinct letters, invalid and valid variants, answer known by construction); the quick tier sweeps all of it in one logic per distinct set of truth-functional rule implementations '
         '(groups read from the rule classes), the thorough tier in every logic; even runs = one generated argument over sentence letters and truth-functional operators only '
         '(<=4 letters, depth<=3 quick / <=4 thorough, total size<=20, <=2 biconditionals, 0-3 premises, 30% mutated library examples; 10% with 5-9 further premises repeating one literal alone or as a conjunct) in one of '
         'the 57 logics (stratified), one of the 4 optimisation-option combinations, a seeded tie-break '
@@ -29,9 +29,10 @@ class Budget:
     """Bounded-progress monitor. A ticking rule applied twice to the same node on the same branch
     means the tick did not consume the node: the proof can never finish (sound criterion). Merely
     exceeding the step budget is inconclusive (exponential but finite proofs exist) and only counted."""
-    def __init__(self):
+    def __init__(self, limit=None):
         self.n = 0
         self.seen = set()
+        self.limit = limit or STEP_BUDGET
     def on_created(self, tab, res): pass
     def on_trunk(self, tab, res): pass
     def on_step(self, tab, res, entry):
@@ -43,7 +44,7 @@ class Budget:
             if k in self.seen:
                 raise proofsim.MonitorAbort('lost-tick %s node#%s branch#%s' % k)
             self.seen.add(k)
-        if self.n > STEP_BUDGET:
+        if self.n > self.limit:
             raise proofsim.MonitorAbort('step-budget')
     def on_finish(self, tab, res): pass
 
@@ -248,6 +249,50 @@ def _key(cfg):
 def minimise(ctx, v):
     return proofcheck.minimise_violation(v, _key)
 
+def scale_run(ctx, k):
+    "k-th member of (representative logic x scale case): verdict known by construction, confirmed by R1's evaluator."
+    logics = representatives()
+    cases = proofwl.scale_cases()
+    logic = logics[k % len(logics)]
+    case = cases[(k // len(logics)) % len(cases)]
+    sem = refsem.get(logic)
+    prems, conc, val = proofwl.scale_case(sem, case)
+    srng = ctx.rng('schedule')
+    opts = dict(proofwl.ALL_OPT_COMBOS[srng.randrange(4)])
+    opts['is_build_models'] = False
+    cfg = proofsim.Config(logic, prems, conc, opts, order_seed=srng.choice((0, srng.getrandbits(32))),
+        cache=srng.choice(proofsim.CACHE_SIZES), drive='step')
+    m = refsem.RModel()
+    if val is not None:
+        for a, v in val.items():
+            m.atom[(0, a)] = v
+        expect = 'refuted' if sem.is_countermodel(m, prems, conc) else None
+    else:
+        # valid by construction if the deciding letter's designated values keep the fold designated
+        b = ('A', 1, 0)
+        ok = True
+        for v in sem.values:
+            m.atom = {(0, b): v}
+            if sem.is_designated(v) and not all(sem.is_designated(sem.eval(x, m, 0)) for x in (conc,) if b in list(refsem.walk(x))):
+                ok = False
+        expect = 'valid' if ok and case[0] == 0 else None
+    ctx.count('scale_cases')
+    if expect is None:
+        return
+    res = proofsim.run(cfg, Budget(100))      # a linear proof takes < 70 steps; branching folds are cut short
+    ctx.log('scale', logic, case, res.outcome)
+    if res.outcome.startswith('aborted:step-budget'):
+        ctx.count('inconclusive_step_budget')
+        return
+    if res.outcome != expect:
+        clause = 'unsound' if expect == 'refuted' else 'incomplete'
+        cause = 'outcome=' + res.outcome
+        if clause == 'unsound' and res.outcome == 'valid':
+            cause = diagnose.unsound(sem, res.tab, m, frames=False)
+        key = '%s|%s' % (clause, cause) if cause.startswith(('rule=', 'closure=')) else '%s|%s|scale|%s' % (clause, proofcheck.base_logic(logic), cause)
+        proofcheck.report(ctx, ID, clause, cfg, '%s %s: by construction the argument is %s (%d copies against %d items), the tableau reports %s' % (
+            logic, lexgen.argstr(prems, conc)[:120], 'invalid' if expect == 'refuted' else 'valid', case[1], case[2], res.outcome), key)
+
 def run(ctx):
     if ctx.index % 2 == 1:
         # systematic half: this run's slice of the whole shape-in-context enumeration (both tiers
@@ -261,6 +306,11 @@ def run(ctx):
         for e in range(j * per, (j + 1) * per):
             ctx.count('enumerated_members')
             check_cfg(ctx, enum_cfg(ctx, srng, off + e))
+        # scale sweep: n-fold repetitions (n = 1..20) against n-1 / n / n+1 items of the other kind
+        nsc = len(representatives()) * len(proofwl.scale_cases())
+        per2 = -(-nsc // nodd)
+        for k in range(j * per2, min(nsc, (j + 1) * per2)):
+            scale_run(ctx, k)
         return
     check_cfg(ctx, make_cfg(ctx))
 
